@@ -357,14 +357,22 @@ func (g *opGen) op(name string) Op {
 		return Op{Name: name, A: []string{p, v}}
 	case "AddReplace":
 		op, ov := g.modAndVersion()
+		sameTarget := []string(nil)
 		if e, ok := g.existing("replace"); ok {
 			op, ov = e.Args[0], e.Args[1]
 			if rapid.IntRange(0, 2).Draw(t, "othero") == 0 {
 				ov = g.versionFor(op)
 			}
+			if gen.Chance(t, 25, "sametarget") {
+				// the replacement an existing directive already points at, under another (or the same) key
+				sameTarget = []string{e.Args[2], e.Args[3]}
+			}
 		}
 		if rapid.IntRange(0, 2).Draw(t, "wild") == 0 {
 			ov = ""
+		}
+		if sameTarget != nil {
+			return Op{Name: name, A: []string{op, ov, sameTarget[0], sameTarget[1]}}
 		}
 		if rapid.Bool().Draw(t, "todir") {
 			return Op{Name: name, A: []string{op, ov, pick(t, modgen.Dirs, "dir"), ""}}
@@ -386,6 +394,14 @@ func (g *opGen) op(name string) Op {
 		if rapid.Bool().Draw(t, "interval") {
 			hi = g.versionFor(mp)
 		}
+		if gen.Chance(t, 8, "twin") {
+			// bounds that are equal in precedence and different as strings
+			if strings.HasSuffix(lo, "+incompatible") {
+				hi, lo = lo, strings.TrimSuffix(lo, "+incompatible")
+			} else if !strings.Contains(lo, "+") {
+				hi = lo + "+incompatible"
+			}
+		}
 		if e, ok := g.existing("retract"); ok && name == "DropRetract" {
 			lo, hi = e.Args[0], e.Args[1]
 		}
@@ -395,7 +411,7 @@ func (g *opGen) op(name string) Op {
 		if gen.Chance(t, 8, "badversion") {
 			lo = pick(t, []string{"v1", "", "v1.2"}, "badv")
 		}
-		return Op{Name: name, A: []string{lo, hi, pick(t, []string{"", "bad release", "two\nlines", "Published accidentally."}, "rationale")}}
+		return Op{Name: name, A: []string{lo, hi, pick(t, []string{"", "bad release", "two\nlines", "Published accidentally.", "Published accidentally.\n\nUse v1.2.1 instead.", "\nleading blank", "trailing blank\n", "a\n\n\nb", "  spaced  \n\tlines\t"}, "rationale")}}
 	case "AddTool", "DropTool":
 		p := pick(t, modgen.ToolPaths, "tool")
 		if e, ok := g.existing("tool"); ok {
@@ -408,6 +424,21 @@ func (g *opGen) op(name string) Op {
 		d := pick(t, modgen.Dirs, "dir")
 		if e, ok := g.existing("use"); ok {
 			d = e.Args[0]
+			if gen.Chance(t, 20, "respell") {
+				// another spelling of the same directory: a different key for these operations
+				switch rapid.IntRange(0, 3).Draw(t, "spelling") {
+				case 0:
+					d += "/"
+				case 1:
+					d = strings.TrimSuffix(d, "/")
+				case 2:
+					if strings.HasPrefix(d, "./") && len(d) > 2 {
+						d = "./x/../" + d[2:]
+					}
+				case 3:
+					d = "./" + d
+				}
+			}
 		}
 		return Op{Name: name, A: []string{d}}
 	case "SetUse":
